@@ -529,6 +529,7 @@ func minInt(a, b int) int {
 var exhProp = vh.Define("C15", "exh", check)
 var rapidProp = vh.Define("C15", "rapid", check)
 var arbProp = vh.Define("C15", "arb", check)
+var hostProp = vh.Define("C15", "hostile-digest", check)
 
 // ----------------------------------------------------------------------------- exhaustive
 
@@ -893,6 +894,51 @@ func TestPropMutation(t *testing.T) {
 	})
 }
 
+// hostileDigests: 32-octet values that are the digest of no payload anybody can exhibit, but
+// that an implementation might give a meaning of its own (a zero value standing for "no proof
+// expected", a sentinel, an uninitialised array).
+func hostileDigests() [][]byte {
+	rep := func(b byte) []byte { return bytes.Repeat([]byte{b}, 32) }
+	asc := make([]byte, 32)
+	for i := range asc {
+		asc[i] = byte(i)
+	}
+	one := make([]byte, 32)
+	one[31] = 1
+	first := make([]byte, 32)
+	first[0] = 1
+	return [][]byte{rep(0), rep(0xff), rep(0x20), rep(0x01), rep(0x80), asc, one, first}
+}
+
+// TestHostileDigests enumerates patterned digests x draft x record size x small streams
+// (nothing, the size field alone, size field + zero octets, honest streams of small payloads,
+// a lone proof) x limits: nothing may be released and no clean EOF reported.
+func TestHostileDigests(t *testing.T) {
+	n := 0
+	for _, d := range hostileDigests() {
+		for _, draft := range []int{2, 3} {
+			for _, rs := range []int{1, 2, 16, 32, 33, 4096} {
+				streams := [][]byte{nil, be64(uint64(rs)), cat(be64(uint64(rs)), make([]byte, 1)), cat(be64(uint64(rs)), make([]byte, rs)),
+					cat(be64(uint64(rs)), make([]byte, rs+32)), cat(be64(uint64(rs)), d), cat(be64(uint64(rs)), make([]byte, rs), d), cat(be64(uint64(rs)), d, d)}
+				for _, l := range []int{0, 1, rs, rs + 1, 2 * rs} {
+					h, _ := refmice.Encode(draft, filler(7, l), rs)
+					streams = append(streams, h)
+				}
+				for _, s := range streams {
+					for _, reads := range [][]int{{1}, {rs + 40}} {
+						c := Case{Draft: draft, RS: rs, Len: 0, Digest: d, Mut: Mut{Kind: "replace", Bytes: s}, MaxRS: 1 << 20, Reads: reads}
+						n++
+						if !hostProp.One(t, c) {
+							return
+						}
+					}
+				}
+			}
+		}
+	}
+	vh.Exhaustive("hostile-digest", fmt.Sprintf("hostile digests: %d patterned digests x 2 drafts x 6 record sizes x 13 small streams x 2 read patterns = %d cases", len(hostileDigests()), n))
+}
+
 // TestPropArbitrary: arbitrary streams against the honest digest of some payload, and any
 // stream (honest ones included) against an arbitrary digest.
 func TestPropArbitrary(t *testing.T) {
@@ -905,6 +951,9 @@ func TestPropArbitrary(t *testing.T) {
 		arbitraryDigest := rapid.Bool().Draw(t, "arbitrary-digest")
 		if arbitraryDigest {
 			c.Digest = rapid.SliceOfN(rapid.Byte(), 32, 32).Draw(t, "digest")
+			if rapid.IntRange(0, 2).Draw(t, "patterned-digest") == 0 {
+				c.Digest = rapid.SampledFrom(hostileDigests()).Draw(t, "digest-pattern")
+			}
 		}
 		kinds := []string{"random", "size+random", "other-payload", "other-rs", "other-draft", "proofs-only", "honest-prefix+random"}
 		if arbitraryDigest {
